@@ -40,8 +40,7 @@ class Ledger : public ArduinoJson::Allocator {
   std::vector<bool> fault_set;   // SET: fault_set[i] => fail fallible call i+1
   size_t byte_limit = (size_t)-1;  // refuse when live_bytes would exceed (capacity scenarios)
 
-  std::function<void()> on_pool_request;  // optional hook, called for allocations of pool size
-  size_t pool_bytes = 0;
+  std::function<void(size_t)> on_allocate;  // optional hook, called at the start of every allocate()
 
   ~Ledger() {
     // free whatever the library leaked so ASan stays quiet; the property decides if it is an error
@@ -78,7 +77,7 @@ class Ledger : public ArduinoJson::Allocator {
   void* allocate(size_t size) override {
     calls++;
     allocs++;
-    if (pool_bytes && size == pool_bytes && on_pool_request) on_pool_request();
+    if (on_allocate) on_allocate(size);
     if (should_fail(size, 0)) {
       note('A', size, false);
       return nullptr;
